@@ -38,6 +38,7 @@ def params():
     out.append(("special-", "-", ["sh"], "val"))
     out.append(("special!", "!", ["sh"], "unset"))
     out.append(("special0", "0", ["sh"], "val"))
+    out.append(("special0-empty", "0", ["", "a"], "null"))       # an empty shell name: $0 is set and null
     return out
 
 
